@@ -7,21 +7,24 @@
    before the interrupted command or the value that command was setting — never anything else.
 
    e : env            the parameters of the model (which files the backend writes, how many
-                      write() calls a file takes, ...); [fixed e] = the tree with
-                      pending/C09-cmdline-atomic-write.diff and pending/C09-wipe-keep-cmdline.diff
+                      write() calls a file takes, ...); [fixed e] = the tree as it is in /repo
+                      (cmd_line.txt written atomically, --wipe keeps it in place, configure
+                      writes cmd_line.txt before coredata.dat)
+   w : world          what lies outside the build directory: the defaults the project declares
+                      and the option values in the machine file — it may differ from event to event
    h : list event     a directory history from the empty directory: commands that ran to their
-                      end ([Ran c]) and commands killed on entry to their (k+1)-th mutation
-                      ([Killed c k]); [meson_event] excludes external damage
-   crash e k c st     the directory after the first k file-system mutations of command c
-   recover e st       the follow-up `meson setup [--reconfigure]` on st: (outcome, directory after)
-   reported e st      the option store that follow-up reports *)
+                      end ([Ran w c]) and commands killed on entry to their (k+1)-th mutation
+                      ([Killed w c k]), each in its own world; [meson_event] excludes external damage
+   crash e w k c st   the directory after the first k file-system mutations of command c
+   recover e w st     the follow-up `meson setup [--reconfigure]` on st: (outcome, directory after)
+   reported e w st    the option store that follow-up reports *)
 From MV Require Import Base.Strs Crash.Model Crash.Proofs.
 
 (* "re-running `meson setup` ... succeeds without manual repair" — for every history (earlier
-   kills included), every command, every kill index *)
-Theorem C09_followup_succeeds : forall e h c k,
+   kills and edits of the project included), every command, every kill index *)
+Theorem C09_followup_succeeds : forall e h w c k,
   fixed e -> forallb meson_event h = true ->
-  fst (recover e (crash e k c (run_history e h))) = Done.
+  fst (recover e w (crash e w k c (run_history e h))) = Done.
 Proof. exact recover_succeeds. Qed.
 Print Assumptions C09_followup_succeeds.
 
@@ -29,62 +32,85 @@ Print Assumptions C09_followup_succeeds.
    whatever was killed wherever ... *)
 Theorem C09_coredata_and_cmdline_never_torn : forall e h,
   fixed e -> forallb meson_event h = true ->
-  (run_history e h Core = Absent \/ exists l, run_history e h Core = Whole (CStore l)) /\
-  (run_history e h Cmd = Absent \/ exists r, run_history e h Cmd = Whole (CRec r)).
+  (run_history e h Core = Absent \/ exists s, run_history e h Core = Whole (CStore s)) /\
+  (run_history e h Cmd = Absent \/ exists r nf, run_history e h Cmd = Whole (CRec r nf)).
 Proof. exact history_Inv. Qed.
 Print Assumptions C09_coredata_and_cmdline_never_torn.
 
 (* ... and after the follow-up every state file (coredata.dat, build.dat, cmd_line.txt,
    build.ninja, the backend's .dat files, the intro files) is whole *)
-Theorem C09_no_state_file_left_unreadable : forall e h c k f,
+Theorem C09_no_state_file_left_unreadable : forall e h w c k f,
   fixed e -> forallb meson_event h = true -> In f (state_files e) ->
-  whole (snd (recover e (crash e k c (run_history e h))) f) = true.
+  whole (snd (recover e w (crash e w k c (run_history e h))) f) = true.
 Proof. exact recover_leaves_state_files_whole. Qed.
 Print Assumptions C09_no_state_file_left_unreadable.
 
 (* "every option has either its value from before the interrupted command or the value that
    command was setting": full strength on every directory whose earlier commands ran to
-   completion — all histories, all four commands, all -D lists, all directory listings, all kill
-   indices.  (old / new / observed = what the follow-up reports on the untouched directory / after
-   the completed command / after the killed command.) *)
-Theorem C09_old_or_new : forall e h c k,
-  fixed e -> forallb completed h = true ->
+   completion in the present world — all histories, all four commands (with or without a machine
+   file, --clearcache), all -D lists, all directory listings, all kill indices.
+   (old / new / observed = what the follow-up reports on the untouched directory / after the
+   completed command / after the killed command.) *)
+Theorem C09_old_or_new : forall e w h c k,
+  fixed e -> completed_in w h ->
   exists vo vn vk,
-    reported e (run_history e h) = Some vo /\
-    reported e (exec e c (run_history e h)) = Some vn /\
-    reported e (crash e k c (run_history e h)) = Some vk /\
-    forall key, value vk key = value vo key \/ value vk key = value vn key.
+    reported e w (run_history e h) = Some vo /\
+    reported e w (exec e w c (run_history e h)) = Some vn /\
+    reported e w (crash e w k c (run_history e h)) = Some vk /\
+    forall key, vk key = vo key \/ vk key = vn key.
 Proof. exact old_or_new_completed_histories. Qed.
 Print Assumptions C09_old_or_new.
 
-(* the same on directories that earlier KILLED commands left behind: true under the guard
-   (always true except for `setup --wipe -Dk=v` when coredata.dat and cmd_line.txt disagree on k) *)
-Theorem C09_old_or_new_after_kills_partial : forall e h c k,
-  fixed e -> forallb meson_event h = true -> guard c (run_history e h) = true ->
-  old_or_new e (run_history e h) c k.
+(* the same on ANY directory — left behind by killed commands, with the project's declared defaults
+   and the machine file edited arbitrarily between the commands: true under the guard, which is
+   `true` for setup, setup --reconfigure and configure, and for `setup --wipe` demands that, for the
+   keys the wipe is given a NEW source for (its -D settings; the machine file if it is given only
+   now), coredata.dat holds what cmd_line.txt and the present world reproduce *)
+Theorem C09_old_or_new_any_history_partial : forall e h w c k,
+  fixed e -> forallb meson_event h = true -> guard w c (run_history e h) = true ->
+  old_or_new e w (run_history e h) c k.
 Proof. exact old_or_new_guarded. Qed.
-Print Assumptions C09_old_or_new_after_kills_partial.
+Print Assumptions C09_old_or_new_any_history_partial.
 
-(* ... and false without it: configure -Dk0=2 killed between its two renames, then
-   setup --wipe -Dk0=3 killed after coredata.dat is deleted: the follow-up reports k0=2 *)
+(* ... and false without it, (1) after an earlier kill: configure -Dk0=2 killed between its two
+   renames, then setup --wipe -Dk0=3 killed after coredata.dat is deleted: the follow-up reports k0=2 *)
 Theorem C09_old_or_new_after_kills_refuted :
-  exists e h c k, fixed e /\ forallb meson_event h = true /\ ~ old_or_new e (run_history e h) c k.
+  exists e h w c k, fixed e /\ forallb meson_event h = true /\ ~ old_or_new e w (run_history e h) c k.
 Proof.
-  exists e_fixed, h_killed_configure, (Wipe [(0, 3)] [Core])%N, 1%nat.
+  exists e_fixed, h_killed_configure, w0, (Wipe [(0, 3)] false [Core])%N, 1%nat.
   exact (conj fixed_e_fixed after_kills_wipe_refuted).
 Qed.
 Print Assumptions C09_old_or_new_after_kills_refuted.
 
-(* the behaviour BEFORE the pending fixes violates the property (crash index as witness):
+(* (2) without any kill, after the project's declared default was edited: setup; default of k0 0 -> 5;
+   setup --wipe -Dk0=3 killed after coredata.dat is deleted: the follow-up reports k0=5 *)
+Theorem C09_old_or_new_after_edit_refuted :
+  exists e h w w' c k, fixed e /\ completed_in w h /\ ~ old_or_new e w' (run_history e h) c k.
+Proof.
+  exists e_fixed, [Ran w0 (Setup [] false)], w0, w_edited, (Wipe [(0, 3)] false [Core])%N, 1%nat.
+  exact (conj fixed_e_fixed after_edit_wipe_refuted).
+Qed.
+Print Assumptions C09_old_or_new_after_edit_refuted.
+
+(* a candidate repair that does NOT help: `meson configure` writing coredata.dat before cmd_line.txt —
+   the same two kills then leave coredata.dat ahead of the record and the wipe window reports the value
+   from before the configure *)
+Theorem C09_configure_coredata_first_refuted :
+  run_history e_corefirst h_killed_configure_corefirst Cmd = Whole (CRec [(0, 1)]%N false) /\
+  ~ old_or_new e_corefirst w0 (run_history e_corefirst h_killed_configure_corefirst) (Wipe [(0, 3)]%N false [Core]) 1.
+Proof. exact corefirst_does_not_help. Qed.
+Print Assumptions C09_configure_coredata_first_refuted.
+
+(* the behaviour BEFORE the fixes violates the property (crash index as witness):
    cmd_line.txt written in place — configure killed at mutation 1: the follow-up dies with a Python error *)
 Theorem C09_cmdline_in_place_refuted :
-  fst (recover e_inplace (crash e_inplace 1 (Configure [(0, 2)]%N)
-                                (run_history e_inplace [Ran (Setup [(0, 1)]%N)]))) = PyErr.
+  fst (recover e_inplace w0 (crash e_inplace w0 1 (Configure [(0, 2)]%N false)
+                                (run_history e_inplace [Ran w0 (Setup [(0, 1)]%N false)]))) = PyErr.
 Proof. exact inplace_cmdline_refuted. Qed.
 Print Assumptions C09_cmdline_in_place_refuted.
 
 (* --wipe keeping cmd_line.txt only in a temporary directory — killed at mutation 4: the option is lost *)
 Theorem C09_wipe_tempdir_refuted :
-  ~ old_or_new e_tmpwipe (run_history e_tmpwipe [Ran (Setup [(0, 1)]%N)]) (Wipe [] [Core; Cmd]) 4.
+  ~ old_or_new e_tmpwipe w0 (run_history e_tmpwipe [Ran w0 (Setup [(0, 1)]%N false)]) (Wipe [] false [Core; Cmd]) 4.
 Proof. exact tmpdir_wipe_refuted. Qed.
 Print Assumptions C09_wipe_tempdir_refuted.
